@@ -1194,3 +1194,93 @@ Proof.
   specialize (H o Ho). rewrite forallb_forall in H. specialize (H p Hp).
   apply negb_true_iff in H. assumption.
 Qed.
+
+(* ------------------------------------------------------------------ a life keeps the file system well formed
+   (so lives can follow each other: the theorems apply to the next tracker on what this one left) *)
+Lemma putrel_wf : forall f g x, wf f -> putrel f g x -> wf g.
+Proof.
+  intros f g x W [ND [PD [c E]]] p a Hn. rewrite E in Hn. rewrite E.
+  destruct (path_eqb x (p ++ [a])) eqn:Q.
+  - apply path_eqb_eq in Q. subst x. rewrite parent_child in PD.
+    rewrite eqb_if; [assumption|]. intro H. apply (f_equal (@length Z)) in H.
+    rewrite app_length in H. simpl in H. lia.
+  - assert (D := W p a Hn). rewrite eqb_if; [assumption|]. intro; subst x. contradiction.
+Qed.
+
+Lemma write_to_wf : forall f p c, wf f -> wf (fst (write_to f p c)).
+Proof.
+  intros f p c W. unfold write_to.
+  assert (X : look f p <> Dir -> n_is_dir (look f (parent p)) = true -> wf (put_file p c f)).
+  { intros ND PD. apply (putrel_wf f _ p W). split; [assumption|]. split; [apply n_is_dir_true; assumption|].
+    exists c. intro q. apply look_put_file. }
+  destruct (look f p) eqn:E; [|assumption|];
+    destruct (n_is_dir (look f (parent p))) eqn:Ed; simpl; try assumption; apply X; congruence.
+Qed.
+
+Theorem tracker_life_keeps_wf : forall f0 tmp n0 mid,
+  wf f0 -> forallb mid_op mid = true ->
+  match tmp with Some d => look f0 d = Dir /\ look f0 (d ++ [n0]) = Absent | None => True end ->
+  wf (s_fs (life f0 tmp n0 mid)).
+Proof.
+  intros f0 tmp n0 mid W Hm Hleg. destruct tmp as [d|].
+  - destruct Hleg as [HD HA].
+    assert (H : Inv (d ++ [n0]) (alive f0 (Some d) n0 mid) /\ wf (s_fs (alive f0 (Some d) n0 mid))).
+    { rewrite alive_some by assumption.
+      apply (run_ind_p mid_op (fun s => Inv (d ++ [n0]) s /\ wf (s_fs s))); [|assumption|].
+      - intros s o s' x [HI HW] Ho Hs. split; [eapply step_keeps_inv; eauto|].
+        destruct HI as [t [Ht [HT [HF _]]]].
+        destruct (step_some s t _ o s' x Ht HT (proj1 HF) Ho Hs) as [t' [_ [_ Hc]]].
+        destruct Hc as [[E1 _] | [[p [c [_ [_ [_ [ND [PD E]]]]]]] | [p [io [n [_ [_ [_ [Ea [_ [E _]]]]]]]]]]].
+        + rewrite E1. assumption.
+        + apply (putrel_wf (s_fs s) _ p HW). split; [assumption|]. split; [assumption|]. eauto.
+        + apply (putrel_wf (s_fs s) _ (d ++ [n0] ++ [n]) HW). rewrite app_assoc.
+          split; [congruence|]. split; [rewrite parent_child; apply HF|]. eauto.
+      - split; [apply create_inv; assumption|]. simpl.
+        intros p a Hn. rewrite look_put_dir in Hn. rewrite look_put_dir.
+        destruct (path_eqb (d ++ [n0]) (p ++ [a])) eqn:Q.
+        + apply path_eqb_eq in Q. apply app_inj_tail in Q. destruct Q; subst p a.
+          rewrite eqb_if; [assumption|]. intro H. apply (f_equal (@length Z)) in H.
+          rewrite app_length in H. simpl in H. lia.
+        + assert (D := W p a Hn). rewrite eqb_if; [assumption|]. intro; subst p. congruence. }
+    destruct H as [HI HW]. destruct (del_spec _ _ HI) as [t [g [h [Ht [Hc [Hs [Hh _]]]]]]].
+    destruct HI as [t0 [Ht0 [_ [HF [HL HO]]]]]. rewrite Ht in Ht0. inversion Ht0; subst t0.
+    assert (Wg : wf g).
+    { clear Hs Hh. revert Hc HF HL HO HW. generalize (s_fs (alive f0 (Some d) n0 mid)).
+      generalize (t_out t). intro l. induction l as [|x r IH]; intros f Hc HF HL HO HW.
+      - simpl in Hc. inversion Hc; subst. assumption.
+      - destruct (HO x (or_introl eq_refl)) as [[src Hsrc] [ND PD]].
+        destruct (HL x src Hsrc) as [_ [c Fc]].
+        simpl in Hc. rewrite Hsrc in Hc. unfold copy_file in Hc. rewrite Fc, PD in Hc. simpl in Hc.
+        assert (P : putrel f (put_file x c f) x).
+        { split; [assumption|]. split; [assumption|]. exists c. intro q. apply look_put_file. }
+        assert (Hc' : copy_out (t_loc t) r (put_file x c f) = (g, 0)) by (destruct (look f x); congruence).
+        apply (IH (put_file x c f) Hc').
+        + eapply putrel_flat; eauto.
+        + eapply putrel_loc; eauto.
+        + eapply putrel_out; eauto. intros y Hy. apply HO. right. assumption.
+        + eapply putrel_wf; eauto. }
+    rewrite life_alive, Hs. simpl. intros p a Hn. rewrite Hh in Hn. rewrite Hh.
+    destruct (is_prefix (d ++ [n0]) (p ++ [a])) eqn:E1; [contradiction|].
+    destruct (is_prefix (d ++ [n0]) p) eqn:E2.
+    + exfalso. assert (X : is_prefix (d ++ [n0]) (p ++ [a]) = true).
+      { eapply is_prefix_trans; [exact E2|]. apply is_prefix_spec. eauto. }
+      congruence.
+    + apply (Wg p a). assumption.
+  - assert (H : NoneInv (alive f0 None n0 mid) /\ wf (s_fs (alive f0 None n0 mid))).
+    { unfold alive. rewrite fst_run_cons. simpl.
+      apply (run_ind_p mid_op (fun s => NoneInv s /\ wf (s_fs s))); [|assumption|].
+      - intros s o s' x [HN HW] Ho Hs. destruct (step_none s o s' x HN Ho Hs) as [A _].
+        split; [assumption|].
+        destruct o as [tmp nm|p io n|p|p|p c|]; try discriminate; simpl in Hs.
+        + destruct HN as [t [Ht [HT _]]]. rewrite Ht in Hs. unfold add_file in Hs.
+          destruct (negb (add_check (s_fs s) p io =? 0)); [inversion Hs; subst; assumption|].
+          rewrite HT in Hs. inversion Hs; subst. assumption.
+        + destruct (s_tr s); inversion Hs; subst; assumption.
+        + destruct (s_tr s); inversion Hs; subst; assumption.
+        + assert (Wt := write_to_wf (s_fs s) p c HW).
+          destruct (write_to (s_fs s) p c) as [g r]. inversion Hs; subst. assumption.
+      - split; [|assumption]. eexists. split; [reflexivity|]. simpl. split; [reflexivity|]. split; [reflexivity|].
+        intros; discriminate. }
+    destruct H as [[t [Ht [HT [HO _]]]] HW].
+    rewrite life_alive. simpl. rewrite Ht. unfold del. rewrite HO, HT. simpl. assumption.
+Qed.
